@@ -14,7 +14,7 @@ theorem noTemporal_str (o : TraceOpts) : noTemporalDT (strDT o) = true := by
 theorem noTemporal_prim (o : TraceOpts) (p : Prim) : noTemporalDT (primDT o p) = true := by
   cases p with
   | int t => cases t <;> rfl
-  | str =>
+  | str | strRef | cowStr =>
     simp only [primDT]
     split
     · simp [noTemporalDT, noTemporal_str]
